@@ -55,6 +55,11 @@ type Config struct {
 	TargetSites []string
 	// Trace keeps the decision log (task id @ site) for replay output.
 	Trace bool
+	// YieldAfterUnlock makes every mutex release a scheduling point as well:
+	// another task may run between a task's unlock and its next statement
+	// (code that selects something under a lock and uses it after releasing
+	// the lock). Off by default; recorded schedules depend on it.
+	YieldAfterUnlock bool
 }
 
 // Report of a run.
@@ -570,6 +575,10 @@ func (s *Sim) unlocked(key unsafe.Pointer) {
 		}
 	}
 	s.mu.Unlock()
+	if s.cfg.YieldAfterUnlock {
+		t := s.self("unlock")
+		s.park(t, stParked, "after-unlock")
+	}
 }
 
 // Lock replaces (*sync.Mutex).Lock.
